@@ -493,6 +493,7 @@ fn drivers_for(tier: Tier, world: &Arc<World>, first: &Arc<World>) -> Vec<(Drive
     let t = |m: Mode, v: &[&str]| Job::Tokenize { mode: m, texts: v.iter().map(|s| s.to_string()).collect() };
     let ts = |m: Mode, bits: u32, v: &[&str]| Job::TokenizeSubset { mode: m, subset: bits, texts: v.iter().map(|s| s.to_string()).collect() };
     const POS_ONLY: u32 = 1 << 2; // InfoSubset::POS_ID
+    const ALL_BUT_TWO_HIGHEST: u32 = 0xff; // everything but WORD_STRUCTURE (bit 8) and SYNONYM_GROUP_ID (bit 9)
     let w = || world.clone();
     match tier {
         Tier::Quick => vec![
@@ -503,6 +504,8 @@ fn drivers_for(tier: Tier, world: &Arc<World>, first: &Arc<World>) -> Vec<(Drive
             (Driver { label: "2 threads, first use of a system-only dictionary".into(), world: first.clone(), jobs: vec![t(Mode::C, &["か゛ｳﾞ三"]), t(Mode::A, &["は゜アー"])] }, vec![0, 1, 2]),
             (Driver { label: "3 threads, bracketed readings and different scripts".into(), world: w(), jobs: vec![t(Mode::C, &["京都（きょうと）に"]), t(Mode::C, &["東(ひがし)a1"]), t(Mode::A, &["カタカナ123abc"])] }, vec![0, 1]),
             (Driver { label: "2 threads, different field requests on user-dictionary words".into(), world: w(), jobs: vec![ts(Mode::C, POS_ONLY, &["東京府すだち"]), t(Mode::A, &["東京府すだち"])] }, vec![0, 1, 2]),
+            (Driver { label: "2 threads, field requests that differ in the two highest fields only".into(), world: w(), jobs: vec![ts(Mode::C, ALL_BUT_TWO_HIGHEST, &["東京府京都"]), t(Mode::C, &["東京府京都"])] }, vec![0, 1]),
+            (Driver { label: "2 threads, astral and BMP characters with the same low sixteen bits".into(), world: w(), jobs: vec![t(Mode::C, &["\u{20041}\u{20042}x", "\u{1d400}"]), t(Mode::C, &["Aあ", "\u{d400}B"])] }, vec![0, 1]),
         ],
         Tier::Thorough => vec![
             (Driver { label: "2 threads x 2 analyses".into(), world: w(), jobs: vec![t(Mode::A, &["東京都に行く二千三百円", "カタカタア(あ)"]), t(Mode::C, &["1,000円㍿東京府", "すだちxag-2f"])] }, vec![0, 1, 2]),
@@ -512,6 +515,8 @@ fn drivers_for(tier: Tier, world: &Arc<World>, first: &Arc<World>) -> Vec<(Drive
             (Driver { label: "3 threads, first use of a system-only dictionary".into(), world: first.clone(), jobs: vec![t(Mode::C, &["か゛ｳﾞ三"]), t(Mode::A, &["は゜アー"]), t(Mode::B, &["二千(に)"])] }, vec![0, 1, 2]),
             (Driver { label: "3 threads, bracketed readings and different scripts".into(), world: w(), jobs: vec![t(Mode::C, &["京都（きょうと）に行く"]), t(Mode::C, &["東(ひがし)a1"]), t(Mode::A, &["カタカナ123abc"])] }, vec![0, 1, 2]),
             (Driver { label: "3 threads, different field requests on user-dictionary words".into(), world: w(), jobs: vec![ts(Mode::C, POS_ONLY, &["東京府すだち"]), t(Mode::A, &["東京府すだち"]), ts(Mode::B, 0, &["ぴらる都府"])] }, vec![0, 1, 2]),
+            (Driver { label: "3 threads, field requests that differ in the two highest fields only".into(), world: w(), jobs: vec![ts(Mode::C, ALL_BUT_TWO_HIGHEST, &["東京府京都"]), t(Mode::C, &["東京府京都"]), ts(Mode::A, ALL_BUT_TWO_HIGHEST | (1 << 9), &["京都東京府"])] }, vec![0, 1, 2]),
+            (Driver { label: "2 threads, astral and BMP characters with the same low sixteen bits".into(), world: w(), jobs: vec![t(Mode::C, &["\u{20041}\u{20042}x", "\u{1d400}"]), t(Mode::C, &["Aあ", "\u{d400}B"])] }, vec![0, 1, 2]),
         ],
     }
 }
